@@ -107,7 +107,7 @@ type SplitReq struct {
 func NewExec(prog *ssa.Program) *Exec {
 	return &Exec{prog: prog, globals: map[*ssa.Global]int{}, errCodes: map[string]uint64{}, errNames: map[uint64]string{},
 		ipdom: map[*ssa.Function]map[*ssa.BasicBlock]*ssa.BasicBlock{}, loopExit: map[*ssa.Function]map[*ssa.BasicBlock]bool{},
-		liveAt: map[*ssa.BasicBlock]map[ssa.Value]bool{}, funcs: map[string]bool{}, unwind: 300, maxAlloc: 1 << 16}
+		liveAt: map[*ssa.BasicBlock]map[ssa.Value]bool{}, funcs: map[string]bool{}, unwind: 2500, maxAlloc: 1 << 16}
 }
 
 func (fr *Frame) clone() *Frame {
